@@ -1,6 +1,7 @@
 import Feox.Fmt.Winner
 import Feox.Kv.StepAcc
 import Feox.Props.C14
+import Feox.Conc.Sweep
 /-!
 # C11 — expiry is exact: never visible after, never lost before, stable over restart
 
@@ -252,5 +253,21 @@ theorem recovery_no_resurrection (img : Feox.Fmt.Image) (v total : Nat) (o : Feo
   have := Feox.Fmt.no_resurrection img v total o journal sector st0 st st2
     (by intro p hp; rw [h0] at hp; cases hp) hs hr
   exact ⟨this.2.1, this.2.2⟩
+
+/-! ### the background sweeper against concurrent writers -/
+
+/-- **The sweeper never hides or removes a key whose latest generation is unexpired**: in any
+interleaving of writers (replace, delete, re-create), clock ticks, the sweeper's lock-free sample
+and its guarded removal, everything it removed was the key's current generation at that moment
+and expired at that moment -/
+theorem sweeper_removes_only_expired_current (evs : List Feox.Conc.Sweep.Ev) (hg : ∀ e ∈ evs, Feox.Conc.Sweep.Guarded e) :
+    ∀ r ∈ (Feox.Conc.Sweep.run {} evs).removed, r.2.2 = some r.1 ∧ Feox.Conc.Sweep.expiredAt r.1 r.2.1 = true :=
+  Feox.Conc.Sweep.removed_was_current_and_expired evs hg
+
+/-- what the identity check under the bucket guard is for -/
+theorem sweeper_needs_identity_check :
+    let s := Feox.Conc.Sweep.run {} [.put 5, .tick 10, .sample, .put 1000, .remove false]
+    s.cur = none ∧ s.removed = [(⟨0, 5⟩, 10, some ⟨1, 1000⟩)] ∧ Feox.Conc.Sweep.expiredAt ⟨1, 1000⟩ 10 = false :=
+  Feox.Conc.Sweep.unguarded_sweeper_removes_live_key
 
 end Feox.C11
